@@ -104,19 +104,19 @@ impl Check for C03 {
     }
     fn phases(&self, tier: Tier) -> Vec<Phase> {
         match tier {
-            Tier::Quick => vec![Phase::random("queues-profile", 5_000, 2048).batch(100).watchdog(30_000)],
-            Tier::Thorough => vec![Phase::random("queues-profile", 80_000, 2048).batch(200).watchdog(30_000)],
+            Tier::Quick => vec![Phase::random("queues-profile", 7_000, 2048).batch(100).watchdog(30_000), Phase::random("data-guard-profile", 7_000, 2048).batch(100).watchdog(30_000)],
+            Tier::Thorough => vec![Phase::random("queues-profile", 80_000, 2048).batch(200).watchdog(30_000), Phase::random("data-guard-profile", 80_000, 2048).batch(200).watchdog(30_000)],
         }
     }
-    fn describe(&self, _phase: usize, tape: &[u8]) -> String {
-        let c = decode(tape, &Profile::queues(), None);
+    fn describe(&self, phase: usize, tape: &[u8]) -> String {
+        let c = decode(tape, &if phase == 0 { Profile::queues() } else { Profile::queues_data() }, None);
         format!("events {:?} mode {:?}\n{}", c.events, c.mode, c.xml)
     }
     fn min_nontrivial_pct(&self) -> u32 {
         15
     }
-    fn run(&self, _phase: usize, tape: &[u8], want_sample: bool) -> CaseResult {
-        let c = decode(tape, &Profile::queues(), None);
+    fn run(&self, phase: usize, tape: &[u8], want_sample: bool) -> CaseResult {
+        let c = decode(tape, &if phase == 0 { Profile::queues() } else { Profile::queues_data() }, None);
         compare_case(
             &c,
             want_sample,
